@@ -334,3 +334,10 @@ def nontrivial(case, r):
 def case_class(case, r):
     n = r.get("npop", 0)
     return ("pop<6" if n < 6 else "pop6-12" if n <= 12 else "pop>12") + (":problems" if r.get("problems") else "")
+
+
+UNITS_NAME = "operations_executed_with_full_snapshots"
+
+
+def units(case, r):
+    return len(case['ops'])
